@@ -4,6 +4,10 @@ Decided:
   R-FLOW     the vertex set is the image of all 2^n corners of the intensity box (product over {0,1} with one factor per
              source, affinely mapped to [lb, ub] in intensity units); `bounded` is derived from the finiteness of ub and the
              same value steers vertex construction and the membership test
+             no corner of the box is dropped by position (rows of the corner cloud may be removed by value — exactly-zero rows
+             in the chromatic branch — never by index); on every path of the membership routine (each return, the end of each
+             exception handler and of each conditional arm) the answer depends on the targets themselves, not only on a
+             rank-truncated projection of them
   R-QTY      adaptation and baseline are applied exactly once before the test (no second K in the vertex construction);
              both operands of every membership test share unit and frame: the same offset is removed from the vertex cloud
              and from the targets; no dimensionless literal is added to a dimensioned quantity except at the enumerated site
